@@ -236,15 +236,24 @@ def rule_f4(chk: Check, ir, tr):
                 ok = False
                 # evaluate: no conversion & no debug -> -1 ; debug only -> ord('r')
                 try:
-                    v0 = constfold.fold_expr(conv, {n.id: None for n in ast.walk(conv) if isinstance(n, ast.Name)})
                     names = sorted({n.id for n in ast.walk(conv) if isinstance(n, ast.Name)})
                     dbg = [n for n in names if "debug" in n]
-                    v1 = constfold.fold_expr(conv, {n: ("=" if n in dbg else None) for n in names}) if dbg else None
-                    ok = v0 == -1 and v1 == ord("r")
+                    cv = [n for n in names if "conv" in n]
+                    rest = [n for n in names if n not in dbg and n not in cv]
+                    ok = bool(dbg) and bool(cv)
+                    import itertools
+                    for d, c, *others in itertools.product((None, "="), (None, 115, 114, 97), *[(None, "spec")] * len(rest)):
+                        env = {n: d for n in dbg}
+                        env.update({n: c for n in cv})
+                        env.update(dict(zip(rest, others)))
+                        want = c if c else (ord("r") if d else -1)
+                        if constfold.fold_expr(conv, env) != want:
+                            ok = False
                 except AnalysisError:
-                    pass
+                    ok = False
                 chk.require(ok, "F4-grammar-side", f"fstring_replacement_field#alt{i}:conversion", str(a.pos),
-                            f"conversion must be -1 without `!c`, ord('r') for a bare `=` debug field, else the checked character; "
+                            f"conversion must be -1 without `!c`, ord('r') for a bare `=` debug field, else the checked character — whatever else "
+                            f"the field has (a format spec does not cancel an explicit conversion); "
                             f"found `{norm_stmt(conv) if conv is not None else None}`")
     # fstring_full_format_spec returns a JoinedStr
     t = tr.interp.rule_types.get("fstring_full_format_spec")
